@@ -196,6 +196,10 @@ let handle (e : sexp) : Stdlib.String.t =
   | L [A "filter"; p] -> show_res show_paths (api_filter bidi_of !cur_tree !cur_ns !cur_sl (path_ p))
   | L [A "closest"; p] -> show_res (show_opt show_path) (api_closest bidi_of !cur_tree !cur_ns !cur_sl (path_ p))
   | L [A "attr_template"; op; v; ic; dotall] -> show_re (attr_template (aop_ op) (str_ v) (bool_ ic) (bool_ dotall))
+  | L [A "lru"; mx; L ops] ->
+    let (outs, size) = lru_trace (nat_of_int (int_ mx))
+        (List.map (function A "p" -> None | x -> Some (nat_of_int (int_ x))) ops) in
+    Printf.sprintf "((%s) %d)" (Stdlib.String.concat " " (List.map (fun o -> string_of_int (int_of_nat o)) outs)) (int_of_nat size)
   | L [A "langfilter"; r; t] -> show_bool (extended_language_filter (str_ r) (str_ t))
   | _ -> failwith "unknown command"
 
